@@ -1,7 +1,8 @@
 (* C20 — property theorems only. Source = C20.Src, regenerated from /repo on this run. *)
 From Coq Require Import Reals ZArith String List Bool Lra.
 Require Import Py.PyAst Py.PyVal Py.PySem Py.XLemmas.
-Require Import C20.Src C20.Model.
+Require Import Py.Sym.
+Require Import C20.Src C20.Model C20.PriorN.
 Import ListNotations.
 Open Scope string_scope.
 Open Scope R_scope.
@@ -57,3 +58,21 @@ Require Import Py.Defaults.
 Theorem C20_no_shared_default_state : all_defaults_safe src_fundefs = true.
 Proof. vm_compute. reflexivity. Qed.
 Print Assumptions C20_no_shared_default_state.
+
+(* A PRIOR LIST OF ANY LENGTH (induction over the interpreter's loop, PriorN.v): for every list of (name, mean, sigma) entries - repeated names
+   included, each entry counts - and every set of realised parameters, PriorLikelihood.log_likelihood returns the reference sum
+   [prior_sum]: -(x - mu)^2 / (2 sigma^2) for each listed entry whose name the lens realises (x its realised value), nothing for the others;
+   one question is asked per realised entry (is the denominator zero), no random variate is consumed, nothing is logged.
+   ([accv o] is the integer 0 when no entry was realised and the float [accr o] otherwise.) *)
+Theorem C20_prior_list_of_any_length : forall (pl : list (string * R * R)) (realised : list (string * R)) rg cu,
+  (forall n m s, In (n, m, s) pl -> lookup_r n realised <> None -> s <> 0) ->
+  exists o,
+  yields G0 60 (CFun src_PriorLikelihood_log_likelihood) (Some (selfP (pl_names pl) (pl_mus pl) (pl_sgs pl))) [VDict (dict_of realised)] [] rg cu
+    (accv o) cu []
+  /\ accr o = prior_sum pl realised.
+Proof. exact prior_any_length. Qed.
+Print Assumptions C20_prior_list_of_any_length.
+Example C20_repeated_names_each_count :
+  prior_sum [("lambda_mst", 1, 1/10); ("gamma_pl", 2, 1/5); ("lambda_mst", 11/10, 1/5)] [("lambda_mst", 12/10)]
+  = - ((12/10 - 1) ^ 2 / (2 * (1/10) ^ 2)) + (0 + (- ((12/10 - 11/10) ^ 2 / (2 * (1/5) ^ 2)) + 0)).
+Proof. reflexivity. Qed.
